@@ -1,4 +1,5 @@
 // ===== CONTRACTS: MODE on channels (C08) and the MODE dispatcher (C11) =====
+//@assumed utils.rs normalize_sourcemask sha=1e898ad3f656 units=modeletter
 // ASSUMED (status A): completes nick / nick@host / nick!user with wildcards (byte-level str::find and slicing are outside the prelude)
 pub uninterp spec fn norm_mask_spec(mask: Seq<char>) -> Seq<char>;
 #[verifier::external_body]
